@@ -71,6 +71,61 @@ Probe3(d) == { <<d[1] - 1, d[2] - 1, d[3] - 1>>, <<d[1] \div 2, d[2] \div 2, d[3
 Probe2(d) == { <<d[1] - 1, d[2] - 1>>, <<d[1] \div 2, d[2] \div 2>>, <<d[1] - 1, 0>>, <<0, d[2] - 1>>, <<0, 0>>,
                <<d[1] \div 3, d[2] - 1>>, <<d[1] - 1, d[2] \div 3>> }
 
+
+-------------------------------------------------------------------------------
+\* NUMERIC BOUNDARIES (hidden casts and counters: 8 / 16 / 31 / 32 / 64 bit)
+\* extents with an axis just below / at / just above a power of two, and extents whose partial
+\* products (row length x rows, rows x planes) sit at 2^31 / 2^32
+MedExt3 == << <<127, 128, 129>>, <<255, 256, 257>>, <<257, 3, 2>>, <<2, 3, 257>>, <<511, 513, 2>>, <<1023, 1025, 3>>,
+              <<4097, 4095, 1>>, <<65537, 2, 1>>, <<1, 65535, 3>>, <<3, 2, 65536>>, <<65535, 65537, 1>>, <<65537, 65537, 1>>,
+              <<65536, 65536, 4>>, <<2, 65536, 65536>>, <<1, 65536, 65536>>, <<32768, 65536, 3>>, <<3, 32768, 65536>> >>
+MedExt2 == << <<255, 257>>, <<257, 255>>, <<65535, 65537>>, <<65537, 65537>>, <<1, 65536>>, <<65536, 1>>, <<4097, 3>> >>
+Marks == {0, 1, 2, 127, 128, 129, 255, 256, 257, 511, 512, 513, 1023, 1024, 1025, 4095, 4096, 4097, 32767, 32768, 65535, 65536}
+Cap(v, n) == IF v < n THEN v ELSE n - 1
+MarkProbes3(d) == {<<Cap(v, d[1]), Cap(v, d[2]), Cap(v, d[3])>> : v \in Marks}
+                  \cup {<<Cap(v, d[1]), 0, d[3] - 1>> : v \in Marks}
+                  \cup {<<d[1] - 1, Cap(v, d[2]), 0>> : v \in Marks}
+                  \cup {<<0, d[2] - 1, Cap(v, d[3])>> : v \in Marks}
+MarkProbes2(d) == {<<Cap(v, d[1]), Cap(v, d[2])>> : v \in Marks} \cup {<<Cap(v, d[1]), 0>> : v \in Marks} \cup {<<d[1] - 1, Cap(v, d[2])>> : v \in Marks}
+
+\* coordinates whose flat index is EXACTLY 2^31-1, 2^31, 2^31+1, 2^32-1, 2^32, 2^32+1  (<<extent, coordinate, index>>)
+N31m == <<32767, 32767, 1>>   N31 == <<0, 0, 2>>   N31p == <<1, 0, 2>>
+N32m == <<32767, 32767, 3>>   N32 == <<0, 0, 4>>   N32p == <<1, 0, 4>>
+Hits3 == { << <<65536, 65536, 4>>, <<65535, 32767, 0>>, N31m >>, << <<65536, 65536, 4>>, <<0, 32768, 0>>, N31 >>,
+           << <<65536, 65536, 4>>, <<1, 32768, 0>>, N31p >>,     << <<65536, 65536, 4>>, <<65535, 65535, 0>>, N32m >>,
+           << <<65536, 65536, 4>>, <<0, 0, 1>>, N32 >>,          << <<65536, 65536, 4>>, <<1, 0, 1>>, N32p >>,
+           \* elongated: the row number idx / dims.x crosses 2^30 / 2^31 here
+           << <<2, 65536, 65536>>, <<1, 65535, 16383>>, N31m >>, << <<2, 65536, 65536>>, <<0, 0, 16384>>, N31 >>,
+           << <<2, 65536, 65536>>, <<1, 65535, 32767>>, N32m >>, << <<2, 65536, 65536>>, <<0, 0, 32768>>, N32 >>,
+           << <<2, 65536, 65536>>, <<1, 0, 32768>>, N32p >>,
+           << <<1, 65536, 65536>>, <<0, 65535, 32767>>, N31m >>, << <<1, 65536, 65536>>, <<0, 0, 32768>>, N31 >>,
+           << <<1, 65536, 65536>>, <<0, 65535, 65535>>, N32m >>,
+           << <<65537, 65537, 1>>, <<0, 65535, 0>>, N32m >>,     << <<65537, 65537, 1>>, <<1, 65535, 0>>, N32 >>,
+           << <<65537, 65537, 1>>, <<2, 65535, 0>>, N32p >>,
+           << <<3, 32768, 65536>>, <<1, 10922, 21845>>, N31m >> }
+Hits2 == { << <<65536, 65536>>, <<65535, 32767>>, N31m >>, << <<65536, 65536>>, <<0, 32768>>, N31 >>, << <<65536, 65536>>, <<1, 32768>>, N31p >>,
+           << <<65536, 65536>>, <<65535, 65535>>, N32m >>, << <<65537, 65537>>, <<0, 65535>>, N32m >>, << <<65537, 65537>>, <<1, 65535>>, N32 >>,
+           << <<65537, 65537>>, <<2, 65535>>, N32p >> }
+ASSUME \A t \in Hits3 : LFlatten3(L3(t[1]), L3(t[2])) = t[3]
+ASSUME \A t \in Hits2 : LFlatten2(L2(t[1]), L2(t[2])) = t[3]
+ASSUME N31 = Pow2(31) /\ N32 = Pow2(32) /\ Add(N31m, One) = N31 /\ Add(N31, One) = N31p /\ Add(N32m, One) = N32 /\ Add(N32, One) = N32p
+
+\* SIZE_MAX neighbourhood (size_t API): (2^32 - 1) * (2^32 + 1) = 2^64 - 1 cells, far corner at index 2^64 - 2
+P32m1 == N32m   P32p1 == N32p   P32m2 == <<32766, 32767, 3>>
+Max64 == <<32767, 32767, 32767, 32767, 15>>          \* 2^64 - 1
+ASSUME LTotal2(<<P32m1, P32p1>>) = Max64 /\ Add(Max64, One) = Two64
+ASSUME Add(LFlatten2(<<P32m1, P32p1>>, <<P32m2, N32>>), <<2>>) = Two64
+EdgePairs2 == { << <<P32m1, P32p1>>, <<P32m2, N32>> >>, << <<P32p1, P32m1>>, <<N32, P32m2>> >>, << <<P32m1, P32p1>>, <<L(0), L(1)>> >>,
+                << <<Pow2(63), L(1)>>, <<N32p, L(0)>> >>, << <<L(1), Pow2(63)>>, <<L(0), N32p>> >> }
+EdgePairs3 == { << <<P32m1, P32p1, L(1)>>, <<P32m2, N32, L(0)>> >>, << <<L(1), P32m1, P32p1>>, <<L(0), P32m2, N32>> >>,
+                << <<P32p1, L(1), P32m1>>, <<N32, L(0), P32m2>> >>, << <<Pow2(32), Pow2(31), L(1)>>, <<N32m, N31m, L(0)>> >>,
+                << <<L(1), Pow2(31), Pow2(32)>>, <<L(0), N31m, N32m>> >> }
+
+\* iteration windows that cross 2^31 / 2^32 (and a row / plane end at the same time)
+CrossStarts == { << <<65536, 65536, 4>>, <<65534, 32767, 0>> >>, << <<65536, 65536, 4>>, <<65534, 65535, 0>> >>,
+                 << <<2, 65536, 65536>>, <<0, 65535, 32767>> >>, << <<65537, 65537, 1>>, <<65536, 65534, 0>> >>,
+                 << <<257, 3, 2>>, <<255, 2, 0>> >>, << <<2, 3, 257>>, <<1, 2, 255>> >>, << <<65537, 2, 1>>, <<65535, 0, 0>> >> }
+
 MemLimit == Pow2(33)        \* arrays up to 2^33 one-byte cells are mapped (lazily) by the driver
 
 Valid3(d, c) == /\ \A i \in 1..3 : IsLimbs(d[i]) /\ IsLimbs(c[i])
@@ -112,10 +167,14 @@ Rand == ndJsonDeserialize(IOEnv.BIGIN)      \* lines {k: "seq3"|"seq2"|"arr3", d
 RandOf(k) == {i \in 1..Len(Rand) : Rand[i].k = k}
 
 Pairs3 == UNION {{<<L3(Ext3[i]), L3(c)>> : c \in {p \in Probe3(Ext3[i]) : Inside3(Ext3[i], p)}} : i \in 1..Len(Ext3)}
+          \cup UNION {{<<L3(MedExt3[i]), L3(c)>> : c \in Probe3(MedExt3[i]) \cup MarkProbes3(MedExt3[i])} : i \in 1..Len(MedExt3)}
+          \cup {<<L3(t[1]), L3(t[2])>> : t \in Hits3}
 Pairs2 == UNION {{<<L2(Ext2[i]), L2(c)>> : c \in {p \in Probe2(Ext2[i]) : p[1] >= 0 /\ p[2] >= 0}} : i \in 1..Len(Ext2)}
+          \cup UNION {{<<L2(MedExt2[i]), L2(c)>> : c \in Probe2(MedExt2[i]) \cup MarkProbes2(MedExt2[i])} : i \in 1..Len(MedExt2)}
+          \cup {<<L2(t[1]), L2(t[2])>> : t \in Hits2}
 
-AllSeq3 == Pairs3 \cup BPairs3 \cup {<<Rand[i].d, Rand[i].c>> : i \in RandOf("seq3")}
-AllSeq2 == Pairs2 \cup BPairs2 \cup {<<Rand[i].d, Rand[i].c>> : i \in RandOf("seq2")}
+AllSeq3 == Pairs3 \cup BPairs3 \cup EdgePairs3 \cup {<<Rand[i].d, Rand[i].c>> : i \in RandOf("seq3")}
+AllSeq2 == Pairs2 \cup BPairs2 \cup EdgePairs2 \cup {<<Rand[i].d, Rand[i].c>> : i \in RandOf("seq2")}
 AllArr3 == Pairs3 \cup {<<Rand[i].d, Rand[i].c>> : i \in RandOf("arr3")}
 Below31(d) == \A i \in 1..3 : Less(d[i], Pow2(31))
 
@@ -130,6 +189,7 @@ CasesS3 == {BigSeq3(p[1], p[2]) : p \in AllSeq3}
 CasesS2 == {BigSeq2(p[1], p[2]) : p \in AllSeq2}
 CasesA3 == {BigArr3(p[1], p[2]) : p \in AllArr3}
 CasesI3 == UNION {{BigIter3(Ext3[i], c, 5) : c \in {s \in IterStarts(Ext3[i]) : Inside3(Ext3[i], s)}} : i \in 1..Len(Ext3)}
+           \cup {BigIter3(t[1], t[2], 6) : t \in CrossStarts}
 
 ASSUME ndJsonSerialize(IOEnv.OUT \o "-bigseq3", SetToSeq(CasesS3))
 ASSUME ndJsonSerialize(IOEnv.OUT \o "-bigseq2", SetToSeq(CasesS2))
